@@ -97,6 +97,9 @@ def run(chk, repo, tier):
     # ---------------------------------------------------------------- C11-b
     bool_coercion_rule(chk, repo)
     # ---------------------------------------------------------------- C11-c
+    from .common import flag_truth_rule
+    flag_truth_rule(chk, repo, 'C11-c', ['zernike.zernike', 'zernike.zernike_basis', 'zernike.zernike_compose', 'zernike.zernike_fit',
+                                         'zernike.zernike_remove'], 'normalize')
     nm = 'normalize'
     idx = None
     for p in rets:
